@@ -1,5 +1,7 @@
 import Mathlib.Algebra.Order.Field.Basic
 import Mathlib.Tactic.Linarith
+import Mathlib.Algebra.BigOperators.Group.Finset.Basic
+import Mathlib.Algebra.BigOperators.Ring.Finset
 import BioscrapeModel.Proofs.Laws
 import BioscrapeModel.Model.Deterministic
 import BioscrapeModel.Properties.C03
@@ -11,6 +13,10 @@ Proved: the right-hand side handed to the integrator is exactly the model's rate
 `(S + S_d)·rate(x, t)` (delayed stoichiometry added as if the delay were zero); the retry ladder; a
 failed integration is never reported as numbers; rows are re-ruled; and, *conditionally on the
 integrator's accuracy contract*, the reported rows are within tolerance of the exact solution.
+Also proved of that right-hand side, for every rate law: every linear conservation law of the stoichiometry
+is a constant of the rate equations (`rhsGlobal_conserves`), a species no reaction changes has derivative
+zero (`rhsGlobal_untouched`), a state where every rate vanishes is a rest point (`rhsGlobal_rest`); the
+check measures the first on the implementation's output rows (drift of every conserved combination).
 The contract itself (LSODA's accuracy) is assumed and sampled by the check (`det_accurate` is the
 partial form of the property).
 -/
@@ -38,6 +44,71 @@ theorem rhsGlobal_rules (m : SimModel α) (x p : List α) (t : α) :
       = derivative m.nSpecies m.U m.D m.props
           (vecGet (applyRules m.rules x p 1 t m.dt (detRuleStep t m.dt)).1)
           (vecGet (applyRules m.rules x p 1 t m.dt (detRuleStep t m.dt)).2) t := rfl
+
+/-! ### Linear conservation laws and inert reactions -/
+
+private theorem range_map_sum (n : Nat) (f : Nat → α) :
+    ((List.range n).map f).sum = ∑ i ∈ Finset.range n, f i := by
+  induction n with
+  | zero => simp
+  | succ n ih => rw [List.range_succ, List.map_append, List.sum_append, ih, Finset.sum_range_succ]; simp
+
+/-- **conservation laws of the rate equations**: a weighting `w` of the species that every reaction's net
+change (immediate plus delayed) leaves untouched, `Σ_s w_s·(S + S_d)[s, r] = 0` for every reaction, is left
+untouched by the right-hand side handed to the integrator, whatever the rate laws are:
+`Σ_s w_s · rhs_s(x, t) = 0` at every state and time (total mass of a closed conversion chain, total
+enzyme, ...). -/
+theorem rhsGlobal_conserves (m : SimModel α) (x p : List α) (t : α) (hr : m.rules = []) (w : Nat → α)
+    (hw : ∀ r, r < m.props.length →
+      ∑ s ∈ Finset.range m.nSpecies, w s * ((entry m.U s r + entry m.D s r : Int) : α) = 0) :
+    ∑ s ∈ Finset.range m.nSpecies, w s * (rhsGlobal m x p t).1.getD s 0 = 0 := by
+  have h1 : ∀ s ∈ Finset.range m.nSpecies, w s * (rhsGlobal m x p t).1.getD s 0
+      = ∑ r ∈ Finset.range m.props.length,
+          (w s * ((entry m.U s r + entry m.D s r : Int) : α))
+            * (m.props.map (fun q => q.det (vecGet x) (vecGet p) t)).getD r 0 := by
+    intro s hs
+    rw [rhsGlobal_eq m x p t hr s (Finset.mem_range.mp hs)]
+    unfold C03.denseRow
+    rw [range_map_sum, List.length_map, Finset.mul_sum]
+    exact Finset.sum_congr rfl (fun r _ => by ring)
+  rw [Finset.sum_congr rfl h1, Finset.sum_comm]
+  apply Finset.sum_eq_zero
+  intro r hr'
+  rw [← Finset.sum_mul, hw r (Finset.mem_range.mp hr'), zero_mul]
+
+/-- the hypothesis of `rhsGlobal_conserves` is met by a real network: in `A -> B`, `B -> A` the weighting
+(1, 1) is conserved. -/
+example (r : Nat) (hr : r < 2) :
+    ∑ s ∈ Finset.range 2, (fun _ => (1 : α)) s * ((entry [[-1, 1], [1, -1]] s r + entry [[0, 0], [0, 0]] s r : Int) : α) = 0 := by
+  obtain rfl | rfl : r = 0 ∨ r = 1 := by omega
+  all_goals simp [Finset.sum_range_succ, entry]
+
+/-- **a species no reaction changes stays put**: if every reaction's net change of species `s` is zero, its
+derivative is zero at every state and time. -/
+theorem rhsGlobal_untouched (m : SimModel α) (x p : List α) (t : α) (hr : m.rules = []) (s : Nat) (hs : s < m.nSpecies)
+    (h0 : ∀ r, entry m.U s r + entry m.D s r = 0) : (rhsGlobal m x p t).1.getD s 0 = 0 := by
+  rw [rhsGlobal_eq m x p t hr s hs]
+  unfold C03.denseRow
+  apply List.sum_eq_zero
+  intro v hv
+  obtain ⟨r, _, rfl⟩ := List.mem_map.mp hv
+  simp [h0 r]
+
+/-- **rest points**: where every rate vanishes the right-hand side vanishes (an empty system stays empty, a
+state at which nothing can react is a fixed point of the rate equations). -/
+theorem rhsGlobal_rest (m : SimModel α) (x p : List α) (t : α) (hr : m.rules = []) (s : Nat) (hs : s < m.nSpecies)
+    (h0 : ∀ q ∈ m.props, q.det (vecGet x) (vecGet p) t = 0) : (rhsGlobal m x p t).1.getD s 0 = 0 := by
+  rw [rhsGlobal_eq m x p t hr s hs]
+  unfold C03.denseRow
+  apply List.sum_eq_zero
+  intro v hv
+  obtain ⟨r, hrr, rfl⟩ := List.mem_map.mp hv
+  have : (m.props.map (fun q => q.det (vecGet x) (vecGet p) t)).getD r 0 = 0 := by
+    rw [List.getD_eq_getElem?_getD, List.getElem?_map]
+    cases hq : m.props[r]? with
+    | none => simp
+    | some q => simpa using h0 q (List.mem_of_getElem? hq)
+  rw [this, mul_zero]
 
 /-- the default ladder of `mxstep` values. -/
 theorem ladder_default : mxstepLadder 500000 10 500 = [500, 5000, 50000, 500000] := by decide
